@@ -117,15 +117,16 @@ type Cfg struct {
 }
 
 type Act struct {
-	A int    `json:"a"`
+	I int    `json:"i"` // instance id within the segment (order / faults refer to it); 0 = same as A
+	A int    `json:"a"` // model actor id: reconcile of pod p = p, 3 = Sync / SyncForNode, 4 = event handler
 	T string `json:"t"` // rec | hdl | sync | syncnode
 	P int    `json:"p"`
 	E string `json:"e"` // hdl: PodDeleted | PodCompleted | BRDeleted
 }
 
 type Fault struct {
-	A int    `json:"a"`
-	K int    `json:"k"` // k-th client call of actor a in this segment
+	A int    `json:"a"` // actor instance
+	K int    `json:"k"` // k-th client call of that actor instance
 	F string `json:"f"` // fail | crash
 }
 
@@ -134,7 +135,8 @@ type Step struct {
 	Acts   []Act   `json:"acts,omitempty"`
 	Order  []int   `json:"order,omitempty"`
 	Faults []Fault `json:"faults,omitempty"`
-	E      string  `json:"e,omitempty"` // env: PodRunning | Annotate | Restart
+	Envs   []Step  `json:"envs,omitempty"` // run: environment events placed by a negative order entry -(i+1)
+	E      string  `json:"e,omitempty"`    // env: PodRunning | Annotate | Restart
 	P      int     `json:"p,omitempty"`
 	G      int     `json:"g,omitempty"`
 }
@@ -916,7 +918,7 @@ func (w *World) step(a *actor, faults []Fault, all []*actor) bool {
 	a.k++
 	res := "ok"
 	for _, f := range faults {
-		if f.A == a.A && f.K == a.k {
+		if f.A == a.I && f.K == a.k {
 			res = f.F
 		}
 	}
@@ -953,13 +955,22 @@ func (w *World) runSegment(st Step) {
 	byID := map[int]*actor{}
 	var all []*actor
 	for _, ac := range st.Acts {
+		if ac.I == 0 {
+			ac.I = ac.A
+		}
 		a := &actor{Act: ac}
-		byID[ac.A] = a
+		byID[ac.I] = a
 		all = append(all, a)
 	}
 	crashed := false
 	doOne := func(a *actor) {
 		if !a.started {
+			for _, b := range all {
+				if b != a && b.A == a.A && b.started && !b.finished {
+					w.desync++ // one instance per model actor at a time
+					return
+				}
+			}
 			w.start(a)
 			return
 		}
@@ -973,19 +984,38 @@ func (w *World) runSegment(st Step) {
 		if crashed {
 			break
 		}
+		if id < 0 {
+			if -id-1 >= len(st.Envs) {
+				fatal("order names unknown env %d", id)
+			}
+			w.envStep(st.Envs[-id-1])
+			continue
+		}
 		a := byID[id]
 		if a == nil {
 			fatal("order names unknown actor %d", id)
 		}
 		doOne(a)
 	}
+	startable := func(a *actor) bool {
+		for _, b := range all {
+			if b != a && b.A == a.A && b.started && !b.finished {
+				return false
+			}
+		}
+		return true
+	}
 	for !crashed {
 		var next *actor
 		busy := false
 		for _, a := range all {
 			if !a.started {
-				next = a
-				break
+				if startable(a) {
+					next = a
+					break
+				}
+				busy = true
+				continue
 			}
 			if !a.finished {
 				busy = true
@@ -1041,7 +1071,8 @@ func (w *World) envStep(st Step) {
 func runSchedule(s Schedule, scheme *k8sruntime.Scheme, tw *tracefmt.Writer) *World {
 	w := newWorld(s.Cfg, scheme, tw)
 	theWorld.Store(w)
-	w.emit("Scenario", map[string]any{"id": s.ID, "sig": s.Sig, "class": s.Class,
+	sj, _ := json.Marshal(s)
+	w.emit("Scenario", map[string]any{"id": s.ID, "sig": s.Sig, "class": s.Class, "sched": string(sj),
 		"cfg": map[string]any{"kinds": s.Cfg.Kinds, "grps": s.Cfg.Grps}})
 	for _, st := range s.Steps {
 		switch st.N {
@@ -1071,19 +1102,22 @@ var kindCfgs = map[string]Cfg{
 	"fracx": {Kinds: []string{"frac", "none", "cons"}, Grps: [][]int{{1}, {}, {1}}},
 	"multi": {Kinds: []string{"multi", "none", "cons"}, Grps: [][]int{{1, 2}, {}, {1}}},
 	"dra":   {Kinds: []string{"dra", "none", "none"}, Grps: [][]int{{}, {}, {}}},
+	"multin": {Kinds: []string{"multi", "none", "none"}, Grps: [][]int{{1, 2}, {}, {}}},
 	// two consumers of the same group (concurrency, C17)
 	"pairn": {Kinds: []string{"frac", "frac", "none"}, Grps: [][]int{{1}, {1}, {}}},
 	"pairx": {Kinds: []string{"frac", "frac", "cons"}, Grps: [][]int{{1}, {1}, {1}}},
 	"pairm": {Kinds: []string{"multi", "frac", "cons"}, Grps: [][]int{{1, 2}, {2}, {1}}},
 }
 
-var kindOrder = []string{"whole", "fracn", "fracx", "multi", "dra", "pairn", "pairx", "pairm"}
+var kindOrder = []string{"whole", "fracn", "fracx", "multi", "dra", "multin", "pairn", "pairx", "pairm"}
+
+const nSingleKinds = 6
 
 func rec(p int) Step { return Step{N: "run", Acts: []Act{{A: p, T: "rec", P: p}}} }
 
 func dryRun(scheme *k8sruntime.Scheme) {
 	out := map[string]any{}
-	for _, k := range kindOrder[:5] {
+	for _, k := range kindOrder[:nSingleKinds] {
 		tw, _ := tracefmt.Create(os.DevNull)
 		w := runSchedule(Schedule{ID: "dry-" + k, Cfg: kindCfgs[k], Steps: []Step{rec(1)}}, scheme, tw)
 		calls := []string{}
